@@ -1,5 +1,6 @@
 import GoLucene.Proofs.SubstRange
 import GoLucene.Proofs.LexSlash
+import GoLucene.Proofs.FloatRT3
 /-
   C04 — the substitution clause and the placeholder-count clause.
   (Files: SubstTmpl = templates and the scan of the SQL text; SubstLeaf = leaves, render-function table, LIKE, lists,
@@ -19,15 +20,17 @@ import GoLucene.Proofs.LexSlash
   * `subst_text`, `placeholder_count` — the same without templates: replacing the `?` bytes of sqlP that stand
     outside quoted identifiers by the literal texts of the parameters gives exactly sqlI (`substQ`), and the number
     of such `?` bytes is the number of parameters (`countQ`).  A field name may hold `?` (`exNoRange`).
-  * `subst_template_renum`, `subst_text_renum` — float ends, int next to float ends: the same template, the
-    substituted texts related to the parameters by `Renum` (literal text, or re-read by strconv and re-printed with
-    `%d` / `%.2f`), under `rangesRenum` (`endsRenum`).
+  * `subst_template_renum`, `subst_text_renum` — float ends, int next to float ends, and (since fix F12 of `toFloats`)
+    OPEN float ranges `[* TO 2.5]`, `[2.5 TO *]` (`endsRenum_star_float`, `endsRenum_float_star`): the same template,
+    the substituted texts related to the parameters by `Renum` (literal text, or re-read by strconv and re-printed
+    with `%d` / `%.2f`), under `rangesRenum` (`endsRenum`).
   * `parse_subst_template`, `parse_subst`, `parse_subst'`, `parse_subst_renum`, `parse_C04` — for results of
     `lucene.Parse`.
   * What is false (all by evaluation): the count clause in general (`count_false_numeric_field`: `5:[1 TO 2]`
     gives `? >= ? AND ? <= ?` with 3 parameters); the texts for `[1 TO "b"]` (`differ_int_str`: BETWEEN against
-    comparison form), float ends (`differ_float`, `differ_float_round`, `differ_int_float`: `%.2f`), an open end next
-    to a float end (`differ_star_float`: `BETWEEN '*' AND 2.25` against `<= ?`).
+    comparison form), float ends (`differ_float`, `differ_float_round`, `differ_int_float`, and for an open float
+    range `differ_star_float`: `%.2f`).  (Before fix F12 an open end next to a float end gave `BETWEEN '*' AND 2.25`
+    inline against `<= ?`: not even the templates agreed.  Now they do: `agree_star_float`.)
 -/
 set_option linter.unusedSimpArgs false
 set_option linter.unusedVariables false
@@ -578,16 +581,69 @@ example : rangesRenum exFloat = true ∧ rangesRenum cexRound = true ∧ rangesR
     rangesRenum exRanges = true ∧ rangesRenum cexIntStr = false ∧ rangesRenum exNumericField = false := by
   decide +kernel
 
-/-- an open end next to a float end: `rang` prints BETWEEN (`toFloats` compares the end text with `*`, but the text
-    is `'*'`), `rangParam` the comparison form.  Not even the templates agree. -/
-def cexStarFloat : Expr := node (col "a") .range (.bound (.expr (wildLeaf "*")) (.expr (lit (.prim (.flt f225)))) true)
+/-! #### open float ranges (fix F12)
 
-theorem differ_star_float : wfTree cexStarFloat = true ∧ validateExpr cexStarFloat = true ∧
-    rangesRenum cexStarFloat = false ∧
-    outcome cexStarFloat = some (b "\"a\" BETWEEN '*' AND 2.25", b "\"a\" <= ?", some (b "\"a\" <= 2.25")) := by
+Before fix F12 `toFloats` compared the end text with `*` while the text is `'*'`: for `a:[* TO 2.25]` `rang` printed
+`"a" BETWEEN '*' AND 2.25` and `rangParam` `"a" <= ?`; not even the templates agreed (the old `differ_star_float`).
+Now both print the comparison form. -/
+
+/-- `a:[* TO 2.25]`: an open end next to a float end -/
+def exStarFloat : Expr := node (col "a") .range (.bound (.expr (wildLeaf "*")) (.expr (lit (.prim (.flt f225)))) true)
+
+/-- the two renderers agree on `a:[* TO 2.25]` (here even literally: `%.2f` of 2.25 is its `%v` text) -/
+theorem agree_star_float : wfTree exStarFloat = true ∧ validateExpr exStarFloat = true ∧
+    rangesRenum exStarFloat = true ∧
+    outcome exStarFloat = some (b "\"a\" <= 2.25", b "\"a\" <= ?", some (b "\"a\" <= 2.25")) := by
   decide +kernel
 
-/-- … unless the float prints as an integer: `a:[* TO 2.0]` is `<= 2` in both modes -/
+/-- `a:[* TO 1.5]`, `a:{1.5 TO *}` -/
+def cexStarFloat : Expr := node (col "a") .range (.bound (.expr (wildLeaf "*")) (.expr (lit (.prim (.flt f15)))) true)
+def cexFloatStar : Expr := node (col "a") .range (.bound (.expr (lit (.prim (.flt f15)))) (.expr (wildLeaf "*")) false)
+
+/-- what remains false for an open float range is the LITERAL substitution: the float end is printed with `%.2f`
+    inline (`1.50` against `1.5`), as for the two-sided float ranges (`differ_float`) -/
+theorem differ_star_float : wfTree cexStarFloat = true ∧ validateExpr cexStarFloat = true ∧
+    rangesExact cexStarFloat = false ∧
+    outcome cexStarFloat = some (b "\"a\" <= 1.50", b "\"a\" <= ?", some (b "\"a\" <= 1.5")) ∧
+    outcome cexFloatStar = some (b "\"a\" > 1.50", b "\"a\" > ?", some (b "\"a\" > 1.5")) := by
+  decide +kernel
+
+/-- … but the templates agree up to that re-formatting (`subst_template_renum` applies) -/
+example : rangesRenum cexStarFloat = true ∧ rangesRenum cexFloatStar = true := by decide +kernel
+
+theorem toFloats_star_fmtG (f : F64) (h : f.isFinite = true) :
+    toFloats starQ (fmtG f) = some ((parseFloat starQ).getD F64.zero, f) := by
+  unfold toFloats
+  simp only [beq_self_eq_true, if_true, allNum_ne_starQ _ (fmtG_allNum f), Bool.false_eq_true, if_false,
+    FloatRT.parseFloat_fmtG f h]
+
+theorem toFloats_fmtG_star (f : F64) (h : f.isFinite = true) :
+    toFloats (fmtG f) starQ = some (f, (parseFloat starQ).getD F64.zero) := by
+  unfold toFloats
+  simp only [beq_self_eq_true, if_true, allNum_ne_starQ _ (fmtG_allNum f), Bool.false_eq_true, if_false,
+    FloatRT.parseFloat_fmtG f h]
+
+/-- EVERY open range with a finite float end is of one of the forms of `endsRenum` (whatever the field) -/
+theorem endsRenum_star_float (hf : Bool) (f : F64) (h : f.isFinite = true) :
+    endsRenum hf (.str (b "*")) (.flt f) = true := by
+  have e : litText (.flt f) = fmtG f := rfl
+  simp only [endsRenum, starQ_lit, e, toFloats_star_fmtG f h, isNum, decide_true, Option.isSome_some, Bool.or_true,
+    Bool.and_true, Bool.true_or, Bool.true_and]
+
+theorem endsRenum_float_star (hf : Bool) (f : F64) (h : f.isFinite = true) :
+    endsRenum hf (.flt f) (.str (b "*")) = true := by
+  have e : litText (.flt f) = fmtG f := rfl
+  simp only [endsRenum, starQ_lit, e, toFloats_fmtG_star f h, isNum, decide_true, Option.isSome_some, Bool.or_true,
+    Bool.and_true, Bool.true_or, Bool.true_and]
+
+/-- the theorem applied to the open float range `a:[* TO 1.5]`: one template, the hole filled with `?` in parameter
+    mode and with a `Renum`-text of the parameter 1.5 (here `1.50`) inline -/
+example : ∃ vs, Rel2 Renum [.flt f15] vs ∧ substQ false (b "\"a\" <= ?") vs = some (b "\"a\" <= 1.50") ∧
+    countQ false (b "\"a\" <= ?") = 1 :=
+  subst_text_renum cexStarFloat (by decide +kernel) (by decide +kernel) (by decide +kernel) _ _ _
+    (by decide +kernel) (by decide +kernel)
+
+/-- a float that prints as an integer: `a:[* TO 2.0]` is `<= 2` in both modes (`toInts` reads the text `2`) -/
 example : rangesRenum (node (col "a") .range (.bound (.expr (wildLeaf "*")) (.expr (lit (.prim (.flt ⟨0x4000000000000000⟩)))) true)) = true ∧
     outcome (node (col "a") .range (.bound (.expr (wildLeaf "*")) (.expr (lit (.prim (.flt ⟨0x4000000000000000⟩)))) true)) =
       some (b "\"a\" <= 2", b "\"a\" <= ?", some (b "\"a\" <= 2")) := by decide +kernel
@@ -623,6 +679,9 @@ end GoLucene.Subst
 #print axioms GoLucene.Subst.subst_text_renum
 #print axioms GoLucene.Subst.parse_subst_renum
 #print axioms GoLucene.Subst.differ_star_float
+#print axioms GoLucene.Subst.agree_star_float
+#print axioms GoLucene.Subst.endsRenum_star_float
+#print axioms GoLucene.Subst.endsRenum_float_star
 #print axioms GoLucene.Subst.parse_subst_template
 #print axioms GoLucene.Subst.parse_subst
 #print axioms GoLucene.Subst.parse_subst'
